@@ -124,7 +124,14 @@ func frontier(v any, out *[]int) {
 	}
 }
 
+// Yield, when set by the driver before any parse starts, is called at every
+// ReadToken (C18 uses it to add scheduling points).
+var Yield func()
+
 func (l *lexT) ReadToken() (Token, int) {
+	if Yield != nil {
+		Yield()
+	}
 	l.p.reads++
 	if l.p.reads > len(l.toks)+50 {
 		panic("READBOUND")
